@@ -79,6 +79,15 @@ thread_local! {
 /// "fallback": the driver's copy of it (see tools in ./check, DESIGN.md 10.7)
 pub const MAIN_LOOP_SOURCE: &str = include_str!(concat!(env!("XOOLIVE_RS1090_VERIF_GEN"), "/extraction.txt"));
 
+/// how the decoding loop is declared in the evidence
+pub fn main_loop_component() -> (&'static str, &'static str) {
+    if MAIN_LOOP_SOURCE.trim() == "extracted" {
+        ("main()'s decoding loop (main.rs: `let update_reference = ...` to the end of `while let Some(mut msg) = rx_dedup.recv().await`)", "real (the repository's own lines, copied verbatim at build time into a wrapper that supplies main()'s bindings; observation points by shadowing the module name `snapshot`)")
+    } else {
+        ("main()'s decoding loop", "stub (the driver's copy in driver/fallback/: the text could not be located in main.rs or did not compile in the wrapper)")
+    }
+}
+
 /// what main() calls `options` inside its loop
 struct LoopOptions {
     update_position: bool,
